@@ -897,6 +897,33 @@ def cancel_close_race(rng, i):
     return {"kind": ("connclose" if conn else "chanclose") + "-cancel-race", "cfg": {}, "steps": steps}
 
 
+def pub_cancel(rng, i):
+    """A multi-frame publish is under way on a channel (the transport stalled, tiny water marks and handle
+    queue: the publisher is held up half-way) when the server cancels a consumer of that channel (not
+    nowait: the client owes a CancelOk) or sends something else the I/O thread answers by itself.  The
+    publish's frames must stay contiguous among the channel's frames."""
+    cfg = {"tune": [0, 4096, 0], "high": rng.choice([0, 100, 5000]), "low": 0, "bound": rng.choice([1, 2])}
+    steps, ids = opens(2, [1, 2])
+    steps.append({"do": "consume", "h": "A", "as": "cA"})
+    steps.append({"do": "consume", "h": "B", "as": "cB"})
+    steps.append({"do": "budget", "n": rng.choice([0, 40, 5000])})
+    steps.append(dict(op("A", "publish", len=rng.choice([9000, 20000, 40000]), pid=60 * i + 1), **{"async": True}))
+    steps.append({"do": "sleep", "ms": 30})
+    steps.append(srv({"k": "cancel", "ch": ids["A"], "tag": "cA", "nowait": False}))
+    if rng.random() < 0.5:
+        steps.append(srv({"k": "cancel", "ch": ids["B"], "tag": "cB", "nowait": False}))
+    steps.append({"do": "sync"})
+    steps.append({"do": "budget", "n": None})
+    steps.append({"do": "wait", "who": "A"})
+    steps.append({"do": "sync"})
+    steps.append(op("A", "qos"))
+    steps.append(op("B", "qos"))
+    steps.append({"do": "drain", "c": "cA"})
+    steps.append({"do": "drain", "c": "cB"})
+    steps.append({"do": "closeconn"})
+    return {"kind": "pubflags-cancel", "cfg": cfg, "steps": steps}
+
+
 def backlog(rng, i):
     """More than a megabyte queued behind a stalled transport, then drained by short writes that
     never block again (large accepts, but smaller than the backlog)."""
@@ -1279,7 +1306,7 @@ def batches(rng, maxlen, bases, reps=1):
     return res
 
 
-FAMILIES = {"cancel_close_race": cancel_close_race, "close_window": close_window, "pressure": pressure, "midframe_close": midframe_close, "undrained": undrained, "connclose_cross": connclose_cross, "reply_then_close": reply_then_close, "chclose_cross": chclose_cross, "listener_split": listener_split, "mixed": mixed, "pubflags": pubflags, "backlog": backlog, "hb_silence": hb_silence, "listener_cross": listener_cross, "close_slow": close_slow, "consumer_drop": consumer_drop, "rpc": rpc, "content": content, "consumer": consumer, "listeners": listeners,
+FAMILIES = {"pub_cancel": pub_cancel, "cancel_close_race": cancel_close_race, "close_window": close_window, "pressure": pressure, "midframe_close": midframe_close, "undrained": undrained, "connclose_cross": connclose_cross, "reply_then_close": reply_then_close, "chclose_cross": chclose_cross, "listener_split": listener_split, "mixed": mixed, "pubflags": pubflags, "backlog": backlog, "hb_silence": hb_silence, "listener_cross": listener_cross, "close_slow": close_slow, "consumer_drop": consumer_drop, "rpc": rpc, "content": content, "consumer": consumer, "listeners": listeners,
             "connclose": connclose, "chanclose": chanclose}
 
 
